@@ -1,4 +1,4 @@
-\* exhaustive, repaired flags, adversarial names (underscores): 2 databases x 2 collection names x 1 incarnation x 1 partition
+\* exhaustive, repaired flags, adversarial names (underscores): 2 databases x 2 collection names x 1 incarnation x 1 partition; source time 10 min behind the local clock
 SPECIFICATION Spec
 CHECK_DEADLOCK FALSE
 INVARIANTS TypeOK ContractMilvus ContractKafka
@@ -13,6 +13,8 @@ CONSTANTS
   PStates = {"created", "dropped"}
   Concrete <- NamesClash
   Now = 100
+  Skews = {"behind"}
+  ClampLocal = FALSE
   FixStaleDb = TRUE
   LiveDbGuard = TRUE
   SafeKeys = TRUE
